@@ -1,7 +1,347 @@
 package c20
 
-import "testing"
+import (
+	"encoding/json"
+	"fmt"
+	"os"
+	"sort"
+	"testing"
+	"time"
+
+	"verif/simrt"
+)
+
+// Minimisation: shrink the program (tasks, steps, shapes) and the explicit schedule / fault list
+// while a violation with the same signature persists. Program reductions first try the recorded
+// decisions; when those no longer fit, a bounded schedule re-search (fresh simulator seeds, same
+// policy) looks for the same violation class on the smaller program. Finally the explicit decision
+// list itself is reduced with ddmin. Everything runs through the same execute() as normal runs.
+
+type minimiser struct {
+	t       *testing.T
+	execute func(*RunSpec) (*RunReport, *Outcome)
+	sig     string
+	execs   int
+	maxExec int
+	deadline time.Time
+	research int // schedule seeds tried per candidate
+}
+
+func cloneSpec(s *RunSpec) *RunSpec {
+	b, _ := json.Marshal(s)
+	var c RunSpec
+	json.Unmarshal(b, &c)
+	return &c
+}
+
+func (m *minimiser) budgetLeft() bool {
+	return m.execs < m.maxExec && time.Now().Before(m.deadline)
+}
+
+// try executes spec and reports whether the target violation shows; on success it returns the
+// spec with the explicit decisions of that execution.
+func (m *minimiser) try(spec *RunSpec) (*RunSpec, *RunReport, *Outcome) {
+	if !m.budgetLeft() {
+		return nil, nil, nil
+	}
+	m.execs++
+	rep, oc := m.execute(spec)
+	for _, v := range rep.Violations {
+		if v.Sig == m.sig {
+			c := cloneSpec(spec)
+			c.Sim.Replay = oc.Recorded
+			return c, rep, oc
+		}
+	}
+	return nil, nil, nil
+}
+
+// tryWithSearch: recorded decisions first, then fresh schedules.
+func (m *minimiser) tryWithSearch(spec *RunSpec) (*RunSpec, *RunReport, *Outcome) {
+	if c, r, o := m.try(spec); c != nil {
+		return c, r, o
+	}
+	if len(m.sig) >= 11 && m.sig[:11] == "determinism" {
+		return nil, nil, nil // schedule-independent
+	}
+	for i := 0; i < m.research && m.budgetLeft(); i++ {
+		c := cloneSpec(spec)
+		c.Sim.Replay = nil
+		c.Sim.Seed = simrt.Mix(spec.Sim.Seed, 0x5eed, uint64(i))
+		switch i % 4 {
+		case 0: // few switches, pool behaves like the real one for a lone goroutine: few explicit decisions
+			c.Sim.Sched, c.Sim.StayProb = simrt.SchedSticky, 0.99
+			c.Sim.PoolFresh, c.Sim.PoolRecent, c.Sim.PoolOldest, c.Sim.PoolRandom, c.Sim.DropRate = 0, 1, 0, 0, 0
+		case 1:
+			c.Sim.Sched, c.Sim.StayProb = simrt.SchedChase, 0.9
+			c.Sim.PoolFresh, c.Sim.PoolRecent, c.Sim.PoolOldest, c.Sim.PoolRandom, c.Sim.DropRate = 0, 1, 0, 0, 0
+		case 2:
+			c.Sim.Sched = simrt.SchedUniform
+		}
+		if got, r, o := m.try(c); got != nil {
+			return got, r, o
+		}
+	}
+	return nil, nil, nil
+}
+
+// contours splits a shape into M...(Z) groups.
+func contours(s *Shape) [][]Seg {
+	var out [][]Seg
+	for _, g := range s.Segs {
+		if g.C == "M" || len(out) == 0 {
+			out = append(out, nil)
+		}
+		out[len(out)-1] = append(out[len(out)-1], g)
+	}
+	return out
+}
+
+func joinContours(cs [][]Seg, fam string) *Shape {
+	s := &Shape{Family: fam}
+	for _, c := range cs {
+		s.Segs = append(s.Segs, c...)
+	}
+	return s
+}
+
+// shapeCandidates returns simpler variants of a shape, most aggressive first.
+func shapeCandidates(s *Shape) []*Shape {
+	if s == nil {
+		return nil
+	}
+	var out []*Shape
+	cs := contours(s)
+	if len(cs) > 1 {
+		for i := range cs {
+			rest := append(append([][]Seg{}, cs[:i]...), cs[i+1:]...)
+			out = append(out, joinContours(rest, s.Family))
+		}
+	}
+	// drop single interior segments
+	for i, g := range s.Segs {
+		if g.C == "M" || g.C == "Z" {
+			continue
+		}
+		c := cloneShape(s)
+		c.Segs = append(c.Segs[:i], c.Segs[i+1:]...)
+		out = append(out, c)
+	}
+	// curves to lines
+	for i, g := range s.Segs {
+		if g.C == "Q" || g.C == "C" || g.C == "A" {
+			c := cloneShape(s)
+			n := len(g.A)
+			c.Segs[i] = Seg{C: "L", A: []float64{g.A[n-2], g.A[n-1]}}
+			out = append(out, c)
+		}
+	}
+	return out
+}
+
+func (m *minimiser) run(spec *RunSpec) *RunSpec {
+	cur, _, _ := m.try(spec)
+	if cur == nil {
+		return nil
+	}
+	progress := true
+	for progress && m.budgetLeft() {
+		progress = false
+		// 1. drop tasks
+		for t := 0; t < len(cur.Tasks) && len(cur.Tasks) > 1; t++ {
+			c := cloneSpec(cur)
+			c.Tasks = append(c.Tasks[:t], c.Tasks[t+1:]...)
+			if len(c.Sim.StepBudget) > t {
+				c.Sim.StepBudget = nil
+			}
+			if got, _, _ := m.tryWithSearch(c); got != nil {
+				cur = got
+				progress = true
+				t--
+			}
+		}
+		// 2. drop steps
+		for t := 0; t < len(cur.Tasks); t++ {
+			for s := 0; s < len(cur.Tasks[t].Steps) && len(cur.Tasks[t].Steps) > 1; s++ {
+				c := cloneSpec(cur)
+				c.Tasks[t].Steps = append(c.Tasks[t].Steps[:s], c.Tasks[t].Steps[s+1:]...)
+				if got, _, _ := m.tryWithSearch(c); got != nil {
+					cur = got
+					progress = true
+					s--
+				}
+			}
+		}
+		// 3. simplify shapes
+		for t := 0; t < len(cur.Tasks); t++ {
+			for s := 0; s < len(cur.Tasks[t].Steps); s++ {
+				for which := 0; which < 2; which++ {
+					again := true
+					for again && m.budgetLeft() {
+						again = false
+						st := &cur.Tasks[t].Steps[s]
+						sh := st.A
+						if which == 1 {
+							sh = st.B
+						}
+						for _, cand := range shapeCandidates(sh) {
+							c := cloneSpec(cur)
+							if which == 0 {
+								c.Tasks[t].Steps[s].A = cand
+							} else {
+								c.Tasks[t].Steps[s].B = cand
+							}
+							if got, _, _ := m.tryWithSearch(c); got != nil {
+								cur = got
+								progress = true
+								again = true
+								break
+							}
+						}
+					}
+				}
+				// drawings: drop items
+				if d := cur.Tasks[t].Steps[s].Draw; d != nil {
+					for i := 0; i < len(cur.Tasks[t].Steps[s].Draw.Items) && len(cur.Tasks[t].Steps[s].Draw.Items) > 1; i++ {
+						c := cloneSpec(cur)
+						items := c.Tasks[t].Steps[s].Draw.Items
+						c.Tasks[t].Steps[s].Draw.Items = append(items[:i], items[i+1:]...)
+						if got, _, _ := m.tryWithSearch(c); got != nil {
+							cur = got
+							progress = true
+							i--
+						}
+					}
+				}
+			}
+		}
+		// 4. fonts that are no longer referenced cannot be dropped safely (indices); leave them
+	}
+	// 5. reduce the explicit decision list (ddmin on each kind), with its own budget
+	m.maxExec += 3000
+	m.deadline = m.deadline.Add(60 * time.Second)
+	cur = m.reduceDecisions(cur)
+	return cur
+}
+
+func keysOf(mp map[int]int) []int {
+	ks := make([]int, 0, len(mp))
+	for k := range mp {
+		ks = append(ks, k)
+	}
+	sort.Ints(ks)
+	return ks
+}
+
+func (m *minimiser) reduceDecisions(cur *RunSpec) *RunSpec {
+	if cur.Sim.Replay == nil {
+		return cur
+	}
+	for _, kind := range []string{"drop", "pool", "switch"} {
+		get := func(sp *simrt.Sparse) map[int]int {
+			switch kind {
+			case "drop":
+				return sp.Drop
+			case "pool":
+				return sp.Pool
+			}
+			return sp.Switch
+		}
+		keys := keysOf(get(cur.Sim.Replay))
+		n := 2
+		for len(keys) > 0 && m.budgetLeft() {
+			chunk := (len(keys) + n - 1) / n
+			reduced := false
+			for i := 0; i < len(keys) && m.budgetLeft(); i += chunk {
+				end := i + chunk
+				if end > len(keys) {
+					end = len(keys)
+				}
+				c := cloneSpec(cur)
+				mp := get(c.Sim.Replay)
+				for _, k := range keys[i:end] {
+					delete(mp, k)
+				}
+				if got, _, _ := m.try(c); got != nil {
+					cur = got
+					keys = keysOf(get(cur.Sim.Replay))
+					if n > 2 {
+						n--
+					}
+					reduced = true
+					break
+				}
+			}
+			if !reduced {
+				if chunk <= 1 {
+					break
+				}
+				n *= 2
+				if n > len(keys) {
+					n = len(keys)
+				}
+			}
+		}
+	}
+	return cur
+}
 
 func minimise(t *testing.T, rf *ReplayFile, execute func(*RunSpec) (*RunReport, *Outcome), path string) {
-	t.Skip("minimiser not built yet")
+	if rf.Violation.Class == "race" || rf.Violation.Class == "nontermination" || rf.Violation.Class == "crash" {
+		fmt.Printf("MINIMISE skipped: class %s is minimised by the driver (needs a fresh process per candidate)\n", rf.Violation.Class)
+		return
+	}
+	m := &minimiser{t: t, execute: execute, sig: rf.Violation.Sig, maxExec: 3000, deadline: time.Now().Add(90 * time.Second), research: 24}
+	before := specSize(rf.Spec)
+	res := m.run(rf.Spec)
+	if res == nil {
+		fmt.Printf("MINIMISE failed: the violation %q did not reproduce in this process\n", rf.Violation.Sig)
+		return
+	}
+	// final confirmation and full record
+	rep, oc := execute(res)
+	var hit *Violation
+	for i := range rep.Violations {
+		if rep.Violations[i].Sig == rf.Violation.Sig {
+			hit = &rep.Violations[i]
+		}
+	}
+	if hit == nil {
+		fmt.Printf("MINIMISE failed: minimised spec does not reproduce\n")
+		return
+	}
+	out := ReplayFile{Property: "C20", Spec: res, Violation: *hit, All: rep.Violations, Ref: oc.Ref, Sim: oc.Sim, Trace: oc.Trace, Minimised: true,
+		Note: fmt.Sprintf("minimised from %s to %s in %d executions", before, specSize(res), m.execs)}
+	b, _ := json.MarshalIndent(out, "", " ")
+	if err := os.WriteFile(path, b, 0o644); err != nil {
+		t.Fatal(err)
+	}
+	fmt.Printf("MINIMISE ok: %s\n", out.Note)
+}
+
+func specSize(s *RunSpec) string {
+	steps, segs := 0, 0
+	for _, t := range s.Tasks {
+		steps += len(t.Steps)
+		for _, st := range t.Steps {
+			if st.A != nil {
+				segs += len(st.A.Segs)
+			}
+			if st.B != nil {
+				segs += len(st.B.Segs)
+			}
+			if st.Draw != nil {
+				for _, it := range st.Draw.Items {
+					if it.Shape != nil {
+						segs += len(it.Shape.Segs)
+					}
+				}
+			}
+		}
+	}
+	dec := 0
+	if s.Sim.Replay != nil {
+		dec = s.Sim.Replay.Size()
+	}
+	return fmt.Sprintf("%d tasks/%d calls/%d path segments/%d explicit decisions", len(s.Tasks), steps, segs, dec)
 }
